@@ -177,6 +177,7 @@ for _n in (2, 3):
     PROTO('C18', 'ot_n%d' % _n, 'C18_eotp.cc', 'h_ot_n', '1-of-%d: chooser outputs M_sigma (honest run, all coins)' % _n, 'index sigma, messages in G, all coins of chooser and sender',
           tu=EOTP_TU, groups=[dict(GRP(11, 5, 3, 2), H_N=_n)], groupsT=[dict(GRP(11, 5, 3, 2), H_N=_n), dict(GRP(7, 3, 2, 2), H_N=_n), dict(GRP(23, 11, 2, 2), H_N=_n)], timeout=1200)
     HARNESSES[-1]['defines'] = dict(HARNESSES[-1]['defines'], H_MAXDRAWS=24)
+    if _n != 2: HARNESSES[-1]['in_tiers'] = ('thorough',)
     PROTO('C18', 'ot_n%d_firstmove' % _n, 'C18_eotp.cc', 'h_ot_n_firstmove', '1-of-%d sender answers exactly well-formed first moves (group elements, pairwise distinct z_i)' % _n, 'x, y, z_i each in [-1, p+2), sender coins',
           tu=EOTP_TU, groups=[dict(GRP(11, 5, 3, 2), H_N=_n)], groupsT=[dict(GRP(11, 5, 3, 2), H_N=_n), dict(GRP(7, 3, 2, 2), H_N=_n), dict(GRP(23, 11, 2, 2), H_N=_n)], timeout=1200)
     HARNESSES[-1]['defines'] = dict(HARNESSES[-1]['defines'], H_MAXDRAWS=24)
@@ -193,3 +194,12 @@ for _e, _n, _tu in (('h_ctor_pvss', 'ctor_pvss', ['PedersenVSS.cc']), ('h_ctor_v
       defines={'VF_BITS': 10, 'H_MAXDRAWS': 4, 'MINISTL_STREAM_CAP': 256, 'H_DBITS': 4, 'H_HMAX': 5, 'MINISTL_STRING_MINCAP': 63}, config={'TMCG_MAX_FPOWM_T': 8},
       desc='constructor + CheckGroup on hostile integers (zero / negative / tiny modulus): clean refusal, never process death', symbolic='q, g, h/k in [-1, 8)', assumptions=PROTO_ASSUME,
       bounds='modulus p in {-1,0,1,2,3,7} one query each', slices=[{'H_P': p} for p in (-1, 0, 1, 2, 3, 7)], backend='kissat', memgb=6)
+
+# ------------------------------------------------------------------ C04 (soundness, wrong witness) on the VTMF
+def PROTO4(name, entry, desc, sym):
+    PROTO('C04', name, 'C04_vtmf.cc', entry, desc, sym)
+    HARNESSES[-1]['defines'] = dict(HARNESSES[-1]['defines'], H_COLLISION_FREE=1)
+    HARNESSES[-1]['assumptions'] = PROTO_ASSUME + ['hash collision-free on the calls made; digest of a fresh input differs from the challenge already sent (Fiat-Shamir unpredictability)']
+PROTO4('vtmf_cp', 'h_w_cp', 'CP proof for x=gg^a, y=hh^b, a != b: accepted only if c == 0 (mod q)', 'a, b, bases, coin, digests')
+PROTO4('vtmf_mask', 'h_w_mask', 'masking proof presented for another message: accepted only if c == 0 (mod q)', 'key, both messages, masking exponent, coins, digests')
+PROTO4('vtmf_decrypt', 'h_w_decrypt', 'decryption share computed with a key other than the published one: accepted only if c == 0 (mod q)', 'both keys, replacement key, c_1, coins, digests')
